@@ -65,7 +65,7 @@ func randPlan(rng *rand.Rand, nk, n int) []step {
 			continue
 		}
 		k := rng.Intn(nk) + 1
-		if rng.Intn(3) == 0 {
+		if rng.Intn(2) == 0 { // same-key operations pile up behind a gated one
 			k = hot
 		}
 		out = append(out, step{Op: opNames[rng.Intn(len(opNames))], K: k, F: pattern(rng, failPct), G: pattern(rng, gatePct)})
